@@ -4,6 +4,7 @@ import (
 	"bytes"
 	"context"
 	"errors"
+	"strconv"
 	"sync"
 	"testing"
 	"testing/synctest"
@@ -24,6 +25,7 @@ type HSpec struct {
 	Ty     string `json:"ty"`    // ALL or a MsgType
 	Accept bool   `json:"accept"`
 	When   string `json:"when"`  // pre (before Session.Run) | post (after logon)
+	Mutate bool   `json:"mutate"` // an outgoing handler that amends the message (the documented purpose of HandleOutgoing)
 }
 
 type DStep struct {
@@ -150,6 +152,9 @@ func RunDispatch(t *testing.T, sc *DScenario) (recs []interface{}, failure strin
 		register := func(hs HSpec) {
 			if hs.Dir == "out" {
 				h.HandleOutgoing(hs.Ty, func(m simplefixgo.SendingMessage) bool {
+					if hs.Mutate {
+						m.HeaderBuilder().SetFieldSenderCompID("AMENDED" + strconv.Itoa(hs.ID))
+					}
 					b, _ := m.ToBytes()
 					mu.Lock()
 					pos++
